@@ -1,2 +1,188 @@
-/- placeholder index until the relational development is merged -/
-import PyXABProofs.Props.C06
+/-
+  Property group C14: "Runs are reproducible, instances are isolated, user inputs are not
+  mutated."
+
+  * Reproducibility.  The models are pure functions of (state, inputs, recorded random draws):
+    `pull`, `receive`, `init` are Lean functions, so two runs on the same inputs and the same
+    draws return *equal* results.  This holds by construction and needs no theorem (`rfl`).
+  * Isolation.  Proved generically for ANY two state machines: in the product machine driven by
+    an arbitrary interleaving of tagged operations, every component behaves exactly as if it
+    ran alone on the sub-sequence of its own operations (success case, converse, failing case).
+    Instantiated for two T-HOO instances (different reward / score types allowed).
+  * Inputs are not mutated.  The `domain : Box α` argument is an immutable value; its
+    model-level trace is the box of the root node: `Part.init` stores it there and no
+    operation ever changes the box of an existing node (`BoxesKept`), hence the root box of
+    every later state is still `domain`.
+
+  Vocabulary: `Spec/RelSpec.lean`; helper lemmas: `Lemmas/RL_*.lean`.
+-/
+import PyXABProofs.Lemmas.RL_Runs
+
+namespace PyXAB.C14
+open Rel RL
+set_option linter.unusedSectionVars false
+
+/-! ## Isolation of instances (generic) -/
+section isolation
+variable {σ₁ σ₂ ι₁ ι₂ ο₁ ο₂ ε : Type}
+variable (step₁ : σ₁ → ι₁ → Except ε (σ₁ × ο₁)) (step₂ : σ₂ → ι₂ → Except ε (σ₂ × ο₂))
+
+/-- If the interleaved run succeeds, then `proj_i (runPair l) = run_i (l|_i)`: each component of
+the final state and each sub-sequence of the outputs is exactly what that instance produces
+when run alone on the sub-sequence of its own operations. -/
+theorem isolation_ok (l : List (ι₁ ⊕ ι₂)) (s₁ : σ₁) (s₂ : σ₂) (t₁ : σ₁) (t₂ : σ₂)
+    (os : List (ο₁ ⊕ ο₂)) (h : runM (stepPair step₁ step₂) (s₁, s₂) l = .ok ((t₁, t₂), os)) :
+    runM step₁ s₁ (lefts l) = .ok (t₁, lefts os) ∧ runM step₂ s₂ (rights l) = .ok (t₂, rights os) :=
+  runPair_ok step₁ step₂ l s₁ s₂ t₁ t₂ os h
+
+/-- Conversely, if both solo runs succeed then every interleaving succeeds, with these final
+states and these outputs. -/
+theorem isolation_of_solo (l : List (ι₁ ⊕ ι₂)) (s₁ : σ₁) (s₂ : σ₂) (t₁ : σ₁) (t₂ : σ₂)
+    (o₁ : List ο₁) (o₂ : List ο₂) (h₁ : runM step₁ s₁ (lefts l) = .ok (t₁, o₁))
+    (h₂ : runM step₂ s₂ (rights l) = .ok (t₂, o₂)) :
+    ∃ os, runM (stepPair step₁ step₂) (s₁, s₂) l = .ok ((t₁, t₂), os) ∧
+      lefts os = o₁ ∧ rights os = o₂ :=
+  runPair_of_solo step₁ step₂ l s₁ s₂ t₁ t₂ o₁ o₂ h₁ h₂
+
+/-- Failing case: the interleaved run stops at a first failing operation `x`; up to there both
+instances behaved as in their solo runs, the failure is the failure of the instance that owns
+`x` in the state its solo run has reached, and that instance's solo run on its whole
+sub-sequence fails with the same exception. -/
+theorem isolation_error (l : List (ι₁ ⊕ ι₂)) (s₁ : σ₁) (s₂ : σ₂) (e : ε)
+    (h : runM (stepPair step₁ step₂) (s₁, s₂) l = .error e) :
+    ∃ pre x post t₁ t₂ os, l = pre ++ x :: post ∧
+      runM (stepPair step₁ step₂) (s₁, s₂) pre = .ok ((t₁, t₂), os) ∧
+      runM step₁ s₁ (lefts pre) = .ok (t₁, lefts os) ∧
+      runM step₂ s₂ (rights pre) = .ok (t₂, rights os) ∧
+      (match x with
+       | .inl i => step₁ t₁ i = .error e ∧ runM step₁ s₁ (lefts l) = .error e
+       | .inr i => step₂ t₂ i = .error e ∧ runM step₂ s₂ (rights l) = .error e) :=
+  runPair_error step₁ step₂ l s₁ s₂ e h
+
+theorem isolation_error_solo (l : List (ι₁ ⊕ ι₂)) (s₁ : σ₁) (s₂ : σ₂) (e : ε)
+    (h : runM (stepPair step₁ step₂) (s₁, s₂) l = .error e) :
+    runM step₁ s₁ (lefts l) = .error e ∨ runM step₂ s₂ (rights l) = .error e :=
+  runPair_error_solo step₁ step₂ l s₁ s₂ e h
+
+end isolation
+
+/-! ## Isolation of two T-HOO instances -/
+section hoo
+variable {α α' R R' S S' : Type}
+variable [Add α] [Sub α] [Mul α] [Div α] [OfNat α 2] [NatCast α]
+variable [Add α'] [Sub α'] [Mul α'] [Div α'] [OfNat α' 2] [NatCast α']
+variable [LE S] [DecidableLE S] [Max S] [Min S] [Inhabited S] [Inhabited R]
+variable [LE S'] [DecidableLE S'] [Max S'] [Min S'] [Inhabited S'] [Inhabited R']
+
+/-- Two T-HOO instances (possibly with different configurations, domains, reward and score
+types) driven by any interleaving of `pull` / `receive_reward` calls: each one ends in the
+state, and has returned the cells, of its own solo run. -/
+theorem HOO_instances_isolated (cfg : HOOCfg R S) (cfg' : HOOCfg R' S') (s : HOO α R S)
+    (s' : HOO α' R' S') (ops : List (TBOp α R ⊕ TBOp α' R')) (t : HOO α R S) (t' : HOO α' R' S')
+    (os : List (Option Nat ⊕ Option Nat))
+    (h : runM (stepPair (hooOp cfg) (hooOp cfg')) (s, s') ops = .ok ((t, t'), os)) :
+    runM (hooOp cfg) s (lefts ops) = .ok (t, lefts os) ∧
+      runM (hooOp cfg') s' (rights ops) = .ok (t', rights os) :=
+  runPair_ok _ _ ops s s' t t' os h
+
+end hoo
+
+/-! ### a concrete interleaving (evaluated by the kernel) -/
+
+def exCfg : HOOCfg Nat Nat where
+  inf := 1000
+  negInf := 0
+  mean0 := 0
+  meanOf := fun rs n => rs.sum / n
+  uOf := fun m c d => m + 10 / c + (4 - d)
+  expandOK := fun d => decide (d ≤ 2)
+
+def exCfg' : HOOCfg Nat Nat := { exCfg with uOf := fun m c _ => m + 20 / c }
+
+def exD : Draw Nat := ⟨0, []⟩
+
+/-- initial state on the domain `[0, hi]` -/
+def exInit (cfg : HOOCfg Nat Nat) (hi : Nat) : HOO Nat Nat Nat :=
+  match HOO.init cfg .binary [⟨0, hi⟩] [exD] with
+  | .ok (s, _) => s
+  | .error _ => ⟨Part.init .binary [⟨0, hi⟩] (HOO.st0 cfg), 0, none⟩
+
+def exOps : List (TBOp Nat Nat ⊕ TBOp Nat Nat) :=
+  [.inl .pull, .inr .pull, .inr (.receive 2 [exD]), .inl (.receive 7 [exD]), .inl .pull,
+   .inl (.receive 1 [exD]), .inr .pull, .inl .pull, .inr (.receive 9 [exD]), .inr .pull]
+
+/-- the interleaved run succeeds: the hypothesis of `HOO_instances_isolated` is satisfiable -/
+example : (outs (runM (stepPair (hooOp exCfg) (hooOp exCfg')) (exInit exCfg 16, exInit exCfg' 64)
+    exOps)).toOption.map List.length = some 10 := by decide +kernel
+
+/-- and (evaluated independently of the theorem) the outputs of instance 1 inside the interleaving
+are those of its solo run -/
+example : (outs (runM (stepPair (hooOp exCfg) (hooOp exCfg')) (exInit exCfg 16, exInit exCfg' 64)
+      exOps)).toOption.map lefts =
+    (outs (runM (hooOp exCfg) (exInit exCfg 16) (lefts exOps))).toOption := by decide +kernel
+
+def exBad : List (TBOp Nat Nat ⊕ TBOp Nat Nat) :=
+  [.inl .pull, .inr (.receive 2 [exD]), .inl .pull]
+
+/-- a failing interleaving: instance 2 calls `receive_reward` before any `pull`; its solo run fails
+with the same exception -/
+example : (match runM (stepPair (hooOp exCfg) (hooOp exCfg')) (exInit exCfg 16, exInit exCfg' 64) exBad with
+      | .error e => some e | .ok _ => none) = some .noneDeref ∧
+    (match runM (hooOp exCfg') (exInit exCfg' 64) (rights exBad) with
+      | .error e => some e | .ok _ => none) = some .noneDeref := by
+  decide +kernel
+
+/-! ## The user's `domain` is never modified -/
+section domain
+variable {α σ : Type}
+
+/-- `Partition.__init__` stores `domain` as the root box. -/
+theorem init_rootBox (k : Kind) (domain : Box α) (s0 : σ) :
+    rootBox (Part.init k domain s0) = some domain := rfl
+
+/-- boxes of existing cells are kept ⇒ the root box is kept -/
+theorem rootBox_of_boxesKept {P P' : Part α σ} (h : BoxesKept P P') {b : Box α}
+    (hb : rootBox P = some b) : rootBox P' = some b :=
+  boxesKept_rootBox h hb
+
+variable [Add α] [Sub α] [Mul α] [Div α] [OfNat α 2] [NatCast α]
+
+/-- the partition operations never change the box of an existing cell -/
+theorem partition_ops_keep_boxes (P P' : Part α σ) (s0 : σ) (ds ds' : List (Draw α)) :
+    (∀ p nl d, P.makeChildren s0 p nl d = .ok P' → BoxesKept P P') ∧
+      (∀ p, P.expand s0 p ds = .ok (P', ds') → BoxesKept P P') ∧
+      (P.deepen s0 ds = .ok (P', ds') → BoxesKept P P') ∧
+      (∀ i (f : σ → σ), BoxesKept P (P.modifySt i f)) :=
+  ⟨fun p nl d h => boxesKept_makeChildren P P' s0 p nl d h,
+   fun p h => boxesKept_expand P P' s0 p ds ds' h,
+   fun h => boxesKept_deepen P P' s0 ds ds' h,
+   fun i f => boxesKept_modifySt P i f⟩
+
+variable {R S : Type} [LE S] [DecidableLE S] [Max S] [Min S] [Inhabited S] [Inhabited R]
+
+/-- T-HOO: after `__init__` the root box is `domain` … -/
+theorem HOO_init_rootBox (cfg : HOOCfg R S) (k : Kind) (domain : Box α) {ds ds' : List (Draw α)}
+    {s : HOO α R S} (h : HOO.init cfg k domain ds = .ok (s, ds')) : rootBox s.P = some domain :=
+  hoo_init_rootBox cfg k domain h
+
+/-- … no sequence of `pull` / `receive_reward` calls (in any order) changes the box of any
+existing cell … -/
+theorem HOO_ops_keep_boxes (cfg : HOOCfg R S) (ops : List (TBOp α R)) (s s1 : HOO α R S)
+    (os : List (Option Nat)) (h : runM (hooOp cfg) s ops = .ok (s1, os)) : BoxesKept s.P s1.P :=
+  hoo_ops_boxesKept cfg ops s s1 os h
+
+/-- … hence the root box of every state of a run is still the user's `domain`. -/
+theorem HOO_run_rootBox (cfg : HOOCfg R S) (k : Kind) (domain : Box α) (ds0 : List (Draw α))
+    (inputs : List (R × List (Draw α))) {s : HOO α R S} {H : List (Nat × R)}
+    (h : HOO.run cfg k domain ds0 inputs = .ok (s, H)) : rootBox s.P = some domain :=
+  hoo_run_rootBox cfg k domain ds0 inputs h
+
+theorem HOO_ops_rootBox (cfg : HOOCfg R S) (k : Kind) (domain : Box α) {ds ds' : List (Draw α)}
+    {s0 : HOO α R S} (h0 : HOO.init cfg k domain ds = .ok (s0, ds')) (ops : List (TBOp α R))
+    (s1 : HOO α R S) (os : List (Option Nat)) (h : runM (hooOp cfg) s0 ops = .ok (s1, os)) :
+    rootBox s1.P = some domain :=
+  boxesKept_rootBox (hoo_ops_boxesKept cfg ops s0 s1 os h) (hoo_init_rootBox cfg k domain h0)
+
+end domain
+
+end PyXAB.C14
